@@ -114,7 +114,8 @@ func (c *RepoCacheBug) Query(q *query.Query) ([]entity.Id, error) {
 	defer c.mu.RUnlock()
 
 	if q == nil {
-		return c.AllIds(), nil
+		// the lock is already held: sync.RWMutex read locks are not re-entrant
+		return c.allIds(), nil
 	}
 
 	matcher := compileMatcher(q.Filters)
